@@ -7,8 +7,9 @@
 (*                   rules   |-> <<[name |-> <<parts>>, alts |-> <<<<item>>>>]>>, *)
 (*                   terms   |-> <<[name, text]>>]                          *)
 (* item = [kind |-> "str", text]                    an inline string        *)
-(*      | [kind |-> "ref", parts |-> <<m1,..,mk,N>>, mult]   a (qualified)  *)
-(*        reference, mult in {"", "+", "*", "?"}                            *)
+(*      | [kind |-> "ref", parts |-> <<m1,..,mk,N>>, mult, sep]  a          *)
+(*        (qualified) reference, mult in {"", "+", "*", "?"}, sep = <<>> or *)
+(*        the (qualified) reference to the separator of a + / * repetition  *)
 (* A symbol is a pair (file, name).  The reference m1.….mk.N written in     *)
 (* file f denotes (Follow(f, <<m1..mk>>), N), Follow walking the aliases.   *)
 (* Each reachable file contributes its rules ONCE.  Prefix(f) is the alias  *)
@@ -41,14 +42,24 @@ FQN(P, f, n) == Join(P[f] \o <<n>>)
 
 MultSuffix(m) == CASE m = "+" -> "_1" [] m = "*" -> "_0" [] m = "?" -> "_opt" [] OTHER -> ""
 BaseOf(F, P, f, it) == FQN(P, Follow(F, f, Front(it.parts)), Last(it.parts))
-ItemName(F, P, f, it) == IF it.kind = "str" THEN it.text ELSE BaseOf(F, P, f, it) \o MultSuffix(it.mult)
+\* the separator of a repetition is a symbol like any other: resolved in the file the repetition is written in; a helper rule belongs to
+\* (base symbol, multiplicity, SEPARATOR SYMBOL) -- two uses with different separators are different rules whatever the separators are called
+HasSep(it) == it.kind = "ref" /\ it.mult \in {"+", "*"} /\ it.sep # <<>>
+SepOf(F, P, f, it) == FQN(P, Follow(F, f, Front(it.sep)), Last(it.sep))
+SepSuffix(F, P, f, it) == IF HasSep(it) THEN "_" \o SepOf(F, P, f, it) ELSE ""
+ItemName(F, P, f, it) == IF it.kind = "str" THEN it.text ELSE BaseOf(F, P, f, it) \o MultSuffix(it.mult) \o SepSuffix(F, P, f, it)
 HelperProds(F, P, f, it) ==
   IF it.kind = "str" \/ it.mult = "" THEN {}
-  ELSE LET b == BaseOf(F, P, f, it)  one == b \o "_1"
-           plus == { [lhs |-> one, rhs |-> <<one, b>>], [lhs |-> one, rhs |-> <<b>>] }
+  ELSE LET b == BaseOf(F, P, f, it)  ss == SepSuffix(F, P, f, it)  one == b \o "_1" \o ss
+           plus == { [lhs |-> one, rhs |-> IF HasSep(it) THEN <<one, SepOf(F, P, f, it), b>> ELSE <<one, b>>], [lhs |-> one, rhs |-> <<b>>] }
        IN CASE it.mult = "+" -> plus
-            [] it.mult = "*" -> plus \cup { [lhs |-> b \o "_0", rhs |-> <<one>>], [lhs |-> b \o "_0", rhs |-> <<>>] }
+            [] it.mult = "*" -> plus \cup { [lhs |-> b \o "_0" \o ss, rhs |-> <<one>>], [lhs |-> b \o "_0" \o ss, rhs |-> <<>>] }
             [] OTHER -> { [lhs |-> b \o "_opt", rhs |-> <<b>>], [lhs |-> b \o "_opt", rhs |-> <<>>] }
+\* the class of finding D32: two repetitions over the same base symbol whose separators have the same LOCAL name but are different symbols
+ItemsOf(F, f) == UNION { UNION { { F[f].rules[i].alts[a][k] : k \in DOMAIN F[f].rules[i].alts[a] } : a \in DOMAIN F[f].rules[i].alts } : i \in DOMAIN F[f].rules }
+SeparatorNameShared(F, P) ==
+  \E f1 \in DOMAIN P, f2 \in DOMAIN P : \E i1 \in { x \in ItemsOf(F, f1) : HasSep(x) }, i2 \in { x \in ItemsOf(F, f2) : HasSep(x) } :
+     BaseOf(F, P, f1, i1) = BaseOf(F, P, f2, i2) /\ Last(i1.sep) = Last(i2.sep) /\ SepOf(F, P, f1, i1) # SepOf(F, P, f2, i2)
 
 IsOverride(r) == Len(r.name) > 1
 OverrideTarget(F, h, r) == <<Follow(F, h, Front(r.name)), Last(r.name)>>
